@@ -19,6 +19,12 @@ func Next() Seq {
 	return Seq(atomic.AddUint64(&seq, 1))
 }
 
+// Reserve returns the first of n consecutive sequence numbers drawn atomically,
+// so that no other number can fall between them.
+func Reserve(n int) Seq {
+	return Seq(atomic.AddUint64(&seq, uint64(n)) - uint64(n) + 1)
+}
+
 func (s Seq) After(o Seq) bool {
 	return s > o
 }
